@@ -625,9 +625,31 @@ def check_C07(ctx, replay=None):
     else:
         proof_step(ctx, "C07.v", theorems, gen=gen)
     q = ctx.tier == "quick"
+    def extras(pg, rng):
+        """Deterministic boundary cases next to the random stream."""
+        out = []
+        tbl = [s for (_, s) in pg.arches["X86_64"]["table"]]
+        allow, errno = 0x7fff0000, 0x50000
+        # every class of default action that is not one of the named constants: a named action carrying data bits, the
+        # action bits of SECCOMP_RET_USER_NOTIF, small integers, everything set
+        k = 0
+        for d in [errno | 1, errno | 38, errno | 0xffff, errno | 0x8000, 0x30000 | 1, 0x7ff00000 | 5, 0x7ffc0000 | 1, allow | 1, 0x80000000 | 1,
+                  0x7fc00000, 1, 2, 0xffff, 0x10000, 0x40000, 0x60000, 0xffffffff, 0x7fffffff, 0x80050000, 0x00050001]:
+            pol = dict(default=d, groups=[dict(action=rng.choice([allow, errno]), names=rng.sample(tbl, 3), nwc=[])], arch="X86_64", kind="unnamed_default")
+            cid = "xd%d" % k
+            k += 1
+            out.append((cid, "P %s 1 X86_64 %s" % (cid, PG.tokens(pol)), [], dict(kind="unnamed_default", arch="X86_64", defect="default_unnamed", le=1, groups=1)))
+        # valid policies whose programs have every length around the kernel's limit of 4096 instructions (groups of 200
+        # names: no jump needs a bridge, so one more name is one more instruction)
+        base = [dict(action=errno if i % 2 else allow, names=rng.sample(tbl, 200), nwc=[]) for i in range(20)]
+        for j in range(52, 86):
+            pol = dict(default=errno, groups=base + [dict(action=allow, names=tbl[:j], nwc=[])], arch="X86_64", kind="limit_ladder")
+            cid = "xl%d" % j
+            out.append((cid, "P %s 1 X86_64 %s" % (cid, PG.tokens(pol)), [], dict(kind="limit_ladder", arch="X86_64", defect=None, le=1, groups=21)))
+        return out
     res = policy_stream(ctx, "C07", ["names", "cond", "mixed", "mixed", "degenerate", "condlong", "names_long"],
                         400 if q else 6000, 0, defects=PG.DEFECTS, defect_share=0.6, replay=replay,
-                        arches=PG.TABLE_ARCHES + ["X32"])
+                        arches=PG.TABLE_ARCHES + ["X32"], extra_cases=extras)
     if res is None:
         return
     cases, meta = res["cases"], res["meta"]
@@ -654,7 +676,10 @@ def check_C07(ctx, replay=None):
             if (m.get("defect") or notable) and go.startswith("OK"):
                 bad = "a policy with the defect '%s' was accepted" % (m.get("defect") or "architecture without syscall table")
             elif not m.get("defect") and not notable and not go.startswith("OK"):
-                bad = "a policy free of the listed defects was rejected: " + go[:80]
+                # the property promises acceptance only for programs that fit the kernel's limit of 4096 instructions
+                mlen = int(model.split()[1]) if model.startswith("OK ") and model.split()[1].isdigit() else None
+                if mlen is None or mlen <= 4096:
+                    bad = "a policy free of the listed defects%s was rejected: %s" % (" (its program has %d instructions)" % mlen if mlen else "", go[:80])
             elif notable and not m.get("defect") and "unsupported_arch" not in go and "problems" not in go:
                 pass
         if bad:
@@ -676,7 +701,7 @@ def check_C07(ctx, replay=None):
                     rewrite_with_replay_cmd(ctx, p)
                     if found:
                         nbad += 1
-    policy_coverage(ctx, res, "valid policies of every kind and the same policies with ONE defect injected at a random position (unnamed default action, no groups, unknown name in either list - empty, wrong case, trailing blank, NUL, invalid UTF-8 -, duplicate name, conditional+unconditional, argument index 6/7/100/2^31/2^32-1, operation outside the eight constants incl. '' and wrong case, empty condition list), plus policies for architectures without tables; compared with the extracted model on accepted / error class / panic; judged directly against the property text (defect => error without program, no defect => accepted, never a panic); non-trivial = distinct policies carrying a defect that were judged",
+    policy_coverage(ctx, res, "valid policies of every kind and the same policies with ONE defect injected at a random position (unnamed default action, no groups, unknown name in either list - empty, wrong case, trailing blank, NUL, invalid UTF-8 -, duplicate name, conditional+unconditional, argument index 6/7/100/2^31/2^32-1, operation outside the eight constants incl. '' and wrong case, empty condition list), plus policies for architectures without tables, plus deterministic boundary cases: 20 default actions that are named constants carrying data bits / the user-notify bits / small integers, and valid policies whose programs have every length from about 4080 to 4110 instructions; compared with the extracted model on accepted / error class / panic; judged directly against the property text (defect => error without program, no defect => accepted, never a panic); non-trivial = distinct policies carrying a defect that were judged",
                     lambda cid, c: bool((meta.get(cid) or {}).get("defect")))
     ctx.coverage["input_distribution"]["outcome_by_defect"] = classes
     ctx.coverage["correspondence_differences"] = ndiff
